@@ -1360,6 +1360,12 @@ func (w *World) checkWorking() *Violation {
 	if int(tr.Size()) != len(kvs) {
 		return w.viol("working.size", "working Size=%d want %d", tr.Size(), len(kvs))
 	}
+	if tr.IsEmpty() != (len(kvs) == 0) {
+		return w.viol("working.isempty", "IsEmpty()=%v with %d keys in the working state", tr.IsEmpty(), len(kvs))
+	}
+	if tr.Version() != w.Cur {
+		return w.viol("working.version", "Version()=%d, the handle sits on version %d", tr.Version(), w.Cur)
+	}
 	if w.Obs.Light && !w.Obs.Reads {
 		return nil
 	}
